@@ -106,6 +106,88 @@ func c13Oracle(name string) func(x *sched.X, r *vsched.Result) []common.Violatio
 	}
 }
 
+// c13AlteredBody: "invalid vertices are never admitted through the retry path". The delivering side hands AddLeaf a
+// vertex that is valid at that moment and is parked (parent unknown); while it waits the caller reuses the object it
+// passed by pointer - the amount changes, so digest and signatures no longer fit - then the parent arrives and the
+// retry loop replays the parked entry (concurrently with the ops). Whatever the buffer kept (the pointer or a copy),
+// a vertex that does not verify at the moment it is admitted must not enter the ledger.
+func c13AlteredBody(ops []string) func(x *sched.X) {
+	return func(x *sched.X) {
+		vsched.Quiet(true)
+		nd := world.GetNodes("G")
+		w := world.NewLW(nd, sp(10, 0), 0)
+		x.Vars["w"] = w
+		R, A, M := world.Cast("R"), world.Cast("A"), world.Cast("M")
+		ctx := context.Background()
+		if _, err := w.Propose(ctx, 0, w.Tx("base", R, A, 1, 0)); err != nil {
+			panic(err)
+		}
+		snap := nd[0].Book.VerifSnapshot()
+		tip := snap.Leaves[0]
+		var wt uint64
+		for _, v := range snap.Vertices {
+			if v.Hash == tip {
+				wt = v.Weight
+			}
+		}
+		p := w.Craft(M, w.Tx("par", R, A, 1, 0), tip, tip, wt+1)
+		kid := w.Craft(M, w.Tx("kid", R, A, 1, 0), p.Hash, p.Hash, wt+2)
+		x.Vars["kid"] = kid.Hash
+		x.Obsf("early=%s", world.ErrClass(nd[0].Book.AddLeaf(ctx, &kid)))
+		vsched.Settle()
+		kid.Transaction.Spice = sp(9, 0) // the caller's object changes while the node holds it parked
+		vsched.Quiet(false)
+		res := make([]string, len(ops)+1)
+		var hs []*vsched.Handle
+		hs = append(hs, vsched.GoClient("T-parent", func() { res[len(ops)] = "parent=" + world.ErrClass(w.Deliver(ctx, 0, p)) }))
+		for i, op := range ops {
+			i, op := i, op
+			hs = append(hs, vsched.GoClient(fmt.Sprintf("T%d-%s", i, op), func() {
+				switch op {
+				case "tick":
+					if tk := nd[0].RetryTicker; tk != nil && !tk.Stopped {
+						tk.Fire()
+					}
+					res[i] = "tick"
+				case "create":
+					_, err := w.Propose(ctx, 0, w.Tx("loc", R, A, 1, 0))
+					res[i] = "create=" + world.ErrClass(err)
+				}
+			}))
+		}
+		vsched.Join(hs...)
+		vsched.Settle()
+		for k := 0; k < 3; k++ {
+			if tk := nd[0].RetryTicker; tk != nil && !tk.Stopped {
+				tk.Fire()
+				vsched.Settle()
+			}
+		}
+		vsched.Quiet(true)
+		x.Obs = append(x.Obs, res...)
+	}
+}
+
+func c13AlteredOracle(name string) func(x *sched.X, r *vsched.Result) []common.Violation {
+	return func(x *sched.X, r *vsched.Result) []common.Violation {
+		var out []common.Violation
+		if !r.RootDone {
+			out = append(out, common.Violation{Predicate: "C13.completes", Key: "C13.incomplete/" + name, What: name + ": did not complete: " + sched.BlockedSummary(r)})
+			return out
+		}
+		w := x.Vars["w"].(*world.LW)
+		kid := x.Vars["kid"].([32]byte)
+		snap := w.Nodes[0].Book.VerifSnapshot()
+		for _, v := range append(snap.Vertices, snap.Stored...) {
+			if v.Hash == kid && v.Transaction.Spice != sp(1, 0) {
+				out = append(out, common.Violation{Property: "C13", Predicate: "C13.invalid-never-admitted", Key: "C13.invalid-admitted-through-retry/altered-while-parked",
+					What: fmt.Sprintf("%s: the ledger holds the parked vertex with amount %v although it was signed for 1.0: the replay admitted an object that no longer verifies", name, v.Transaction.Spice)})
+			}
+		}
+		return out
+	}
+}
+
 func c13Scenarios() map[string]*sched.Scenario {
 	m := map[string]*sched.Scenario{}
 	opt := vsched.Options{BranchSched: true, BranchData: false, KeyFunc: world.KeyFunc}
@@ -117,5 +199,12 @@ func c13Scenarios() map[string]*sched.Scenario {
 	add("retry||duplicate", "dup", "tick")
 	add("retry||duplicate||duplicate", "dup", "dup", "tick")
 	add("retry||duplicate||create", "create", "dup", "tick")
+	addAltered := func(name string, ops ...string) {
+		m[name] = &sched.Scenario{Name: name, Params: []int{0}, Opt: opt, Body: c13AlteredBody(ops), Oracle: c13AlteredOracle(name),
+			Setup:       func() { world.GetNodes("G") },
+			Interesting: func(x *sched.X, r *vsched.Result) bool { return true }}
+	}
+	addAltered("altered-while-parked||parent||retry", "tick")
+	addAltered("altered-while-parked||parent||retry||create", "tick", "create")
 	return m
 }
